@@ -160,7 +160,7 @@ def printItem (c : Cfg F) (lang : String) (now : Now) (i : Item F) : String :=
     | _ => printBased v t
   | .percent v => "%" ++ formatNumber v c.thou c.dec c.pctFmt.digits c.pctFmt.removeZero c.pctFmt.rounding
   | .money v code =>
-    match assoc? c.currencies code.toLower with
+    match assoc? c.currencies (lowerStr code) with
     | none => "?"
     | some cur =>
       let p := formatNumber v c.thou c.dec cur.digits c.moneyRemoveZero c.moneyRounding
